@@ -189,6 +189,8 @@ JudgeTransfer(tr, T, ev) ==
       ref == RefTransfer(T, [vol |-> vol, comp |-> TrackedComp(tr), hist |-> [k \in 1..NLw(tr) |-> <<Entry(FALSE, "", vol[k])>>]], kwa)
       ok == ev.out = "ok"
       sized == T.autosplit \/ \A i \in 1..Len(x) : x[i].v <= T.wlmax
+      \* the reference split rounds to whole microlitres; it is comparable only for units of 1/k microlitre
+      refok == tr.splitting \/ \A i \in 1..Len(x) : x[i].v <= T.wlmax
       same == a.src = a.dst
       extra == ExtraPairs(T, x)
       rb == Run(T, vol, TrackedComp(tr), ev.recs)
@@ -197,10 +199,10 @@ JudgeTransfer(tr, T, ev) ==
     Cl("C18.mode", T.dev # "base" /\ trp.ok /\ ~ValidMode(a.pby), ~ok /\ post.vol = vol /\ PipRecs(ev.recs) = <<>>),
     Cl("C16.base", T.dev = "base", ev.out = "compat" /\ post.vol = vol /\ ev.recs = <<>>),
     Cl("C04.transfer", T.dev # "base" /\ valid /\ ok, post.vol = ApplyTriples(T, a, x, vol)),
-    Cl("C07.accept", T.dev # "base" /\ valid /\ sized /\ ref.out = "ok", ok),
-    Cl("C06.neverrefused", T.dev # "base" /\ valid /\ T.autosplit /\ ref.out = "ok", ev.out # "invalidop"),
-    Cl("C06.nosplit", T.dev # "base" /\ valid /\ ~sized /\ ref.out = "invalidop", ev.out = "invalidop"),
-    Cl("C02.outcome", T.dev # "base" /\ valid /\ ref.out \in {"overflow", "underflow"} /\ ~ev.tiesbig, ev.out = ref.out),
+    Cl("C07.accept", T.dev # "base" /\ valid /\ sized /\ refok /\ ref.out = "ok", ok),
+    Cl("C06.neverrefused", T.dev # "base" /\ valid /\ T.autosplit /\ refok /\ ref.out = "ok", ev.out # "invalidop"),
+    Cl("C06.nosplit", T.dev # "base" /\ valid /\ ~sized /\ refok /\ ref.out = "invalidop", ev.out = "invalidop"),
+    Cl("C02.outcome", T.dev # "base" /\ valid /\ refok /\ ref.out \in {"overflow", "underflow"} /\ ~ev.tiesbig, ev.out = ref.out),
     Cl("C07.pairs", F.records /\ valid /\ ok, PairsOK(T, a, body)),
     Cl("C07.flows", F.records /\ valid /\ ok, FlowsOK(T, a, x, body)),
     Cl("C06.steps", F.records /\ valid, StepsOK(T, body)),
